@@ -421,7 +421,7 @@ Proof.
   { unfold trim_left. rewrite trim_left_fuel_ws by (try assumption; rewrite app_length; lia).
     apply Forall_cons_iff in Hc. destruct Hc as [[Hs Hl] _]. apply trim_left_fuel_stop.
     unfold core. cbn [app]. apply space_prefix_len_ascii; assumption. }
-  unfold trim_right. rewrite rev_app_distr.
+  unfold trim_right. rewrite !frev_rev. rewrite rev_app_distr.
   rewrite trim_right_fuel_ws by (try (apply Forall_rev; assumption); rewrite rev_length, app_length; lia).
   rewrite trim_right_fuel_stop; [apply rev_involutive|].
   destruct (rev core) as [|z r] eqn:Er; [reflexivity|].
